@@ -88,6 +88,44 @@ def holder_chunk(task):
     return pairs, worst, msgs
 
 
+def box_chunk(task):
+    """the statement in box coordinates: consecutive cells one cell width apart along one axis, and the Hoelder
+    bound with the largest side of the configured box, for every pair of cells; the box is configured by the
+    constructor or through SetBounds (task['via'])"""
+    from mc.env import box
+    N, m, bx, via = task["N"], task["m"], task["box"], task.get("via")
+    lo, up = box(bx, N)
+    side = np.array(up) - np.array(lo)
+    ev = curve.make_ev(N, m, bx, via)
+    n = 2 ** (N * m)
+    Y = np.array([ev.GetImage((i + 0.5) / n) for i in range(n)])
+    w = side / 2 ** m
+    tag = f"N={N} m={m} box={bx}" + (f" (set with SetBounds on an evolvent built for {via})" if via else "")
+    msgs = []
+    for i in range(n - 1):
+        d = np.abs(Y[i + 1] - Y[i]) / w
+        if not np.allclose(sorted(d.tolist()), [0.0] * (N - 1) + [1.0], rtol=0, atol=1e-6):
+            msgs.append(f"{tag}: images of subintervals {i} and {i + 1} differ by {d.tolist()} cell widths (expected one "
+                        f"width along one axis)")
+            break
+    K = 2.0 * math.sqrt(N + 3) * float(side.max())
+    pairs = 0
+    worst = 0.0
+    for i in range(n - 1):
+        j = np.arange(i + 1, n)
+        dist = np.sqrt(((Y[j] - Y[i]) ** 2).sum(axis=1))
+        rhs = K * (np.maximum(j - i - 1, 1) / n) ** (1.0 / N)
+        ratio = dist / rhs
+        pairs += len(j)
+        worst = max(worst, float(ratio.max()))
+        if ratio.max() > 1.0 + 1e-9:
+            jj = int(j[int(ratio.argmax())])
+            msgs.append(f"{tag}: images of subintervals {i} and {jj} are {float(dist[ratio.argmax()])!r} apart, more than "
+                        f"2*sqrt(N+3)*|dx|^(1/N)*(largest side {float(side.max())!r}) = {float(rhs[ratio.argmax()])!r}")
+            break
+    return pairs + n - 1, worst, msgs
+
+
 def deep_task(task):
     N, m, A = task["N"], task["m"], task["A"]
     ev = curve.unit_ev(N, m)
@@ -156,6 +194,20 @@ def run(ctx):
         worst = max(worst, w)
         for msg in msgs:
             res.add_violation(dict(driver="holder", **t, message=msg, sig={}))
+    from mc.env import BOXES
+    btasks = []
+    for (N, m) in curve.small_configs(8 if not th else 10):
+        if N < 2:
+            continue
+        for bx in BOXES:
+            btasks.append(dict(N=N, m=m, box=bx, via=None))
+        for via, bx in curve.VIA_PAIRS:
+            btasks.append(dict(N=N, m=m, box=bx, via=via))
+    nbox = 0
+    for t, (k, w, msgs) in zip(btasks, pmap(box_chunk, btasks)):
+        nbox += k
+        for msg in msgs:
+            res.add_violation(dict(driver="box", **t, message=msg, sig={}))
     Ns = (2, 3, 4, 5) if th else (2, 3, 4)
     auts = automata(ctx, Ns)
     pstates = ptrans = 0
@@ -188,7 +240,7 @@ def run(ctx):
             res.add_violation(dict(driver="deep", N=t["N"], m=t["m"], pads=list(t["pads"]), message=msg, sig={}))
     res.cov = dict(
         states=pstates, transitions=ptrans, traces_validated_against_impl=deep,
-        evaluations=nadj + npairs + deep, distinct_nontrivial=nadj,
+        evaluations=nadj + npairs + deep + nbox, distinct_nontrivial=nadj, box_coordinate_pairs=nbox,
         rule="states/transitions = reachable states of the pair automaton (left block follows last digit, right block digit 0, "
              "cell difference) over the extracted orientation machine, N in the automaton set; all-cells part: every "
              "consecutive pair and every parent/child pair for N*m <= bound (distinct non-trivial), every pair of cells for "
@@ -208,6 +260,8 @@ def replay(rec):
         return adj_chunk(rec)[1]
     if d == "holder":
         return holder_chunk(rec)[2]
+    if d == "box":
+        return box_chunk(rec)[2]
     A = _extract((rec["N"], 1))
     if isinstance(A, str):
         return [A]
